@@ -190,6 +190,28 @@ func (h *harness) scenario(s int, r *lib.RNG, sp scenarioParams) error {
 		return err
 	}
 	doRound := func() error { return doQueries(w.round(r, sp.pairs, sp.txPerKind)) }
+	// PruneUpto calls that must change nothing (empty database / bound at or below the oldest retained
+	// block / bound above the chain), each followed by the store-level comparison
+	refusedPrunes := func(es ...int) error {
+		if len(w.noCommit) > 0 {
+			return nil
+		}
+		for _, e := range es {
+			kind, surprise, err := w.pruneRefused(e)
+			if err != nil {
+				return err
+			}
+			lines = append(lines, fmt.Sprintf("prune %x", e))
+			h.res.Hit("prune-refused:" + kind)
+			if err := h.snapshot(s, w, &lines); err != nil {
+				return err
+			}
+			if surprise != "" {
+				return fmt.Errorf("%s", surprise)
+			}
+		}
+		return nil
+	}
 	if err := h.rejections(s, r); err != nil {
 		return err
 	}
@@ -200,6 +222,11 @@ func (h *harness) scenario(s int, r *lib.RNG, sp scenarioParams) error {
 		}
 		lines = append(lines, "seed")
 		h.res.Hit("config:retention-floor-seeded")
+	}
+	if sp.prune {
+		if err := refusedPrunes(0, 5); err != nil {
+			return err
+		}
 	}
 	// the empty chain
 	if err := doRound(); err != nil {
@@ -246,6 +273,11 @@ func (h *harness) scenario(s int, r *lib.RNG, sp scenarioParams) error {
 		if e >= 24 {
 			h.res.Hit("prune:floor-at-or-above-24")
 		}
+		if w.pruneRotated {
+			h.res.Hit("prune:batch-rotated-after-every-block")
+		} else {
+			h.res.Hit("prune:single-batch")
+		}
 		return nil
 	}
 	for op := 0; op < sp.ops; op++ {
@@ -265,6 +297,9 @@ func (h *harness) scenario(s int, r *lib.RNG, sp scenarioParams) error {
 				return err
 			}
 			h.res.Hit("round:right-after-prune")
+			if err := refusedPrunes(w.prunedBelow, 0, w.height()+1, w.height()+3); err != nil {
+				return err
+			}
 			continue
 		}
 		switch {
@@ -368,6 +403,12 @@ func (h *harness) scenario(s int, r *lib.RNG, sp scenarioParams) error {
 		w.traceSlot(op)
 		if err := h.snapshot(s, w, &lines); err != nil {
 			return err
+		}
+		if len(w.ops) > 0 && strings.HasPrefix(w.ops[len(w.ops)-1], "prune-upto ") && w.pruneCalls <= 2 {
+			// right after the first two effective prunes of a history: the calls that must change nothing
+			if err := refusedPrunes(w.prunedBelow, w.prunedBelow-1, w.height()+1); err != nil {
+				return err
+			}
 		}
 		if op == sp.exhaustAt {
 			// the whole small space: every id x every method x every index / hash / address / slot / class
